@@ -72,7 +72,9 @@ func (f *in) Underlying() interface{} { return nil }
 func (f *in) Listen(onMsg func(msg []byte, milliseconds int32), conf drivers.ListenConfig) (stopFn func(), err error) {
 	//fmt.Printf("listeining from in port of %s\n", f.Driver.name)
 
-	f.last = time.Now()
+	// time stamps are counted on the driver's own clock (see Sleep) from the
+	// moment listening starts; the wall clock has no part in it
+	f.last = f.now
 
 	// a new listener starts listening: forget the stop of a previous one
 	f.stopListening = false
